@@ -278,7 +278,7 @@ pub fn c10(ctx: &mut Ctx, acc: &mut Acc) -> i32 {
         acc.add("exhaustive_max_nodes", max_nodes as u64);
     }
     // random larger graphs
-    let rounds = ctx.n(3_000, 60_000);
+    let rounds = ctx.n(30_000, 300_000);
     for r in 0..rounds {
         if r as usize % ctx.shards != ctx.shard {
             continue;
@@ -288,7 +288,7 @@ pub fn c10(ctx: &mut Ctx, acc: &mut Acc) -> i32 {
         one_graph(acc, &shape, "random");
     }
     // streams citing an object number that was never introduced
-    let rounds = ctx.n(3_000, 60_000);
+    let rounds = ctx.n(30_000, 300_000);
     for r in 0..rounds {
         if r as usize % ctx.shards != ctx.shard {
             continue;
